@@ -2,6 +2,7 @@ import Driver.Sess
 import Driver.Concurrency
 import Driver.Facet
 import Driver.Field
+import Driver.FieldSort
 import Driver.Keyword
 import Driver.Persist
 import Driver.QParser
@@ -14,6 +15,7 @@ def sessions : List (String × Sess) := [
   ("concurrency", ConcurrencyS.sess),
   ("facet", FacetS.sess),
   ("field", FieldS.sess),
+  ("fieldsort", FieldSortS.sess),
   ("keyword", KeywordS.sess),
   ("persist", PersistS.sess),
   ("qparser", QParserS.sess),
